@@ -208,6 +208,9 @@ func (c *Conn) OpenWAL() error {
 	c.walState.open = true
 	c.walState.readLock = -1
 	c.walState.saltSeed = uint32(c.Owner)*7919 + 12345
+	if c.Det {
+		c.walState.saltSeed = 0x5eed5eed
+	}
 	return nil
 }
 
@@ -451,6 +454,13 @@ func (c *Conn) ReadImageWAL() (*oracle.Image, error) {
 	return im, nil
 }
 
+func (c *Conn) salt2For(salt1 uint32) uint32 {
+	if c.Det {
+		return salt1*0x9E3779B9 + 0x7F4A7C15
+	}
+	return c.nextSalt()
+}
+
 func (c *Conn) nextSalt() uint32 {
 	ws := &c.walState
 	ws.saltSeed = ws.saltSeed*1664525 + 1013904223
@@ -477,7 +487,7 @@ func (c *Conn) beginWrite() error {
 		if err := c.shmLock(WALReadLock0+1, 4, true); err == nil {
 			w.MxFrame = 0
 			w.Salt[0]++
-			w.Salt[1] = c.nextSalt()
+			w.Salt[1] = c.salt2For(w.Salt[0])
 			w.NBackfill = 0
 			w.ReadMark = [5]uint32{0, 0, readMarkNotUsed, readMarkNotUsed, readMarkNotUsed}
 			ws.ckptSeq++
@@ -540,6 +550,9 @@ func (c *Conn) RunWTx(tx WTx, cur *oracle.Image) (res WTxResult) {
 	if w.MxFrame == 0 {
 		if w.Salt == [2]uint32{} {
 			w.Salt = [2]uint32{c.nextSalt(), c.nextSalt()}
+			if c.Det {
+				w.Salt = [2]uint32{0x10000001, 0x20000002}
+			}
 		}
 		w.BigEndCksum = tx.BigEndianCksum
 		hdr := make([]byte, 32)
@@ -597,15 +610,22 @@ func (c *Conn) RunWTx(tx WTx, cur *oracle.Image) (res WTxResult) {
 	res.WALOffset = 32 + int64(frameNo)*c.walFrameSize()
 	commit := tx.Outcome != "rollback"
 	pending := map[uint32][]byte{}
+	p1v := page1Next(cur)
 	for i, p := range tx.Frames {
 		if p == lock {
 			continue
 		}
+		var old []byte
+		if b, ok := pending[p]; ok {
+			old = b
+		} else if p <= cur.N() {
+			old = cur.Pages[p-1]
+		}
 		var content []byte
 		if p == 1 {
-			content = MakePage1(c.PageSize, c.NextVersion(), newSize, wal, cc)
+			content = MakePage1(c.PageSize, c.ver(1, old, p1v, !commit), newSize, wal, cc)
 		} else {
-			content = MakePage(c.PageSize, p, c.NextVersion())
+			content = MakePage(c.PageSize, p, c.ver(p, old, p1v, !commit))
 		}
 		pending[p] = content
 		last := i == len(tx.Frames)-1
@@ -822,7 +842,7 @@ func (c *Conn) Checkpoint(mode string, maxFrames uint32) error {
 		if mode == "TRUNCATE" {
 			w.MxFrame = 0
 			w.Salt[0]++
-			w.Salt[1] = c.nextSalt()
+			w.Salt[1] = c.salt2For(w.Salt[0])
 			w.NBackfill = 0
 			w.ReadMark = [5]uint32{0, 0, readMarkNotUsed, readMarkNotUsed, readMarkNotUsed}
 			c.walState.ckptSeq++
